@@ -72,6 +72,18 @@ func main() {
 		n := r.Pick(300, 6000)
 		var wg sync.WaitGroup
 		sem := make(chan struct{}, 8)
+		// a CA that takes seconds to answer (well inside the request timeout): the same post-conditions. Beside the rest.
+		for i, d := range []time.Duration{4200 * time.Millisecond, 6500 * time.Millisecond, 3700 * time.Millisecond} {
+			c := r.Case("slow-ca", i)
+			if c == nil {
+				continue
+			}
+			wg.Add(1)
+			go func(c *ev.Case, i int, d time.Duration) {
+				defer wg.Done()
+				r.Guard(c, "provisioning history with a slow CA", nil, func() { history(r, c, i, d) })
+			}(c, i, d)
+		}
 		for i := 0; i < n; i++ {
 			c := r.Case("hist", i)
 			if c == nil {
@@ -96,8 +108,9 @@ func main() {
 	})
 }
 
-func history(r *ev.Run, c *ev.Case, hi int) {
+func history(r *ev.Run, c *ev.Case, hi int, slowCA ...time.Duration) {
 	rng := c.Rand
+	slowLeft := len(slowCA) // the CA takes its time over the first successful run of a slow-CA history
 	kd, err := gsrig.NewKeyDir()
 	if err != nil {
 		r.Inconclusive(err.Error())
@@ -199,11 +212,23 @@ func history(r *ev.Run, c *ev.Case, hi int) {
 				}
 			}}
 		}
+		if outcome == "ok" && slowLeft > 0 && useSigner == csr.Signer(signer) {
+			slowLeft = 0
+			rec.Outcome = fmt.Sprintf("ok+ca-takes-%s", slowCA[0])
+			useSigner = &nestSigner{inner: signer, hook: func() { time.Sleep(slowCA[0]) }}
+			r.Count("runs whose CA took several seconds to answer", 1)
+		}
 		pspec := gsrig.ParamSpec{LogName: "alice", ReqUser: "u", ReqHost: "h", ClientIP: "10.1.1.1", TransID: gen.Ident(rng, 10), Policy: "NONS"}
 		if outcome == "unconfigured-ca-algorithm" {
 			pspec.CAAlgo = 3 // only "default" (0) has a key identifier in this configuration
 		}
-		runErr, escaped := gsrig.Run(gsrig.Param(pspec), []gensign.Handler{rig.Handler}, useSigner)
+		var scripted time.Duration
+		if len(slowCA) > 0 {
+			scripted = slowCA[0]
+		}
+		rctx, rcancel := context.WithTimeout(context.Background(), 30*time.Second)
+		runErr, escaped := gsrig.RunSlow(rctx, gsrig.Param(pspec), []gensign.Handler{rig.Handler}, useSigner, scripted)
+		rcancel()
 		ag.SetPlan(nil)
 		after := snapshot(ag)
 		rec.After, rec.Result = len(after), gsrig.Kind(runErr)
